@@ -541,6 +541,36 @@ func checkIngressFilter(c *Ctx) {
 			}
 		}
 		c.check(okS, rule, "types/ingress:ServicesFilter/every-ingress-contributes-independently", c.P.fnPos(sf), "", "ServicesFilter does not append buildServicesFilter(ing) — a function of that ingress alone — for every ingress")
+		// every return is filter.NSName(<the collected ids>...): an empty id list must yield the filter that accepts nothing
+		okR, nret := true, 0
+		for _, b := range sf.Blocks {
+			r, isRet := b.Instrs[len(b.Instrs)-1].(*ssa.Return)
+			if !isRet {
+				continue
+			}
+			nret++
+			v := r.Results[0]
+			for {
+				if mi, ok := v.(*ssa.MakeInterface); ok {
+					v = mi.X
+					continue
+				}
+				if ci, ok := v.(*ssa.ChangeInterface); ok {
+					v = ci.X
+					continue
+				}
+				break
+			}
+			call, ok := v.(*ssa.Call)
+			if !ok || call.Call.StaticCallee() == nil || fnName(call.Call.StaticCallee()) != "filter:NSName" {
+				okR = false
+				continue
+			}
+			if _, isPhi := call.Call.Args[0].(*ssa.Phi); !isPhi {
+				okR = false
+			}
+		}
+		c.check(okR && nret == 1, rule, "types/ingress:ServicesFilter/returns-NSName(ids)", c.P.fnPos(sf), "", "ServicesFilter does not return filter.NSName(ids...) on every path (a special case for an empty id list changes what \"no backend named\" selects)")
 	}
 }
 
